@@ -36,6 +36,10 @@ pub struct Event {
 }
 
 pub struct FaultSink {
+    /// when set, `write_vectored` gathers bytes across the offered buffers (as block or
+    /// ring-buffer style writers do) instead of forwarding only the first buffer
+    pub gather_vectored: bool,
+    pub vectored_calls: usize,
     pub schedule: Schedule,
     pub accepted: Vec<u8>,
     pub events: Vec<Event>,
@@ -45,8 +49,13 @@ pub struct FaultSink {
 }
 
 impl FaultSink {
+    pub fn new_vectored(schedule: Schedule) -> FaultSink {
+        let mut s = FaultSink::new(schedule);
+        s.gather_vectored = true;
+        s
+    }
     pub fn new(schedule: Schedule) -> FaultSink {
-        FaultSink { schedule, accepted: vec![], events: vec![], calls: 0, fault_hit: false, flushes: 0 }
+        FaultSink { gather_vectored: false, vectored_calls: 0, schedule, accepted: vec![], events: vec![], calls: 0, fault_hit: false, flushes: 0 }
     }
     pub fn nonretryable_failures(&self) -> usize {
         self.events.iter().filter(|e| e.outcome == Outcome::Failed).count()
@@ -112,6 +121,16 @@ impl Write for FaultSink {
                 Ok(take)
             }
         }
+    }
+    fn write_vectored(&mut self, bufs: &[io::IoSlice<'_>]) -> io::Result<usize> {
+        self.vectored_calls += 1;
+        if !self.gather_vectored {
+            // std's default: forward the first non-empty buffer
+            let buf = bufs.iter().find(|b| !b.is_empty()).map_or(&[][..], |b| &**b);
+            return self.write(buf);
+        }
+        let all: Vec<u8> = bufs.iter().flat_map(|b| b.iter().copied()).collect();
+        self.write(&all)
     }
     fn flush(&mut self) -> io::Result<()> {
         self.flushes += 1;
